@@ -1094,7 +1094,15 @@ def plan_c12(ctx):
         for x in r["mine"]:
             ctx.viols.append((r, x))
         twin_compare(ctx, r, seg=sg)
-    return ctx.finish("model: clear leads every reachable state back to the initial abstract state (asserted on every clear transition); "
+    # clear at every population 1..N (every combination of arena size and free slots), refilled past the old
+    # arena size; clear of an exactly full arena; clear of long bucket lists - what follows the clear is judged
+    # against the reference, which after a clear is that of a new instance
+    more = ord_scale_jobs(ctx, ORD_TREES_MAP[:1] + ORD_TREES_SET[:1] + ORD_LISTS[:1] + ORD_LISTS[2:3] if q else ORD_TREES_MAP + ORD_TREES_SET + ORD_LISTS, flags=("twin",))
+    more += key_scale_jobs(ctx, ["keytree", "keylist"], "A", flags=("twin",))
+    more += seg_dense_jobs(ctx, flags=("twin",))
+    ctx.collect(more)
+    return ctx.finish("clear sweeps: every population 1..90 (thorough: 260) filled, cleared and refilled past the old arena size; "
+                      "model: clear leads every reachable state back to the initial abstract state (asserted on every clear transition); "
                       "conformance: for covered states P (TLC cover paths, arena-growth prefixes, the empty collection, a double clear) and "
                       "seeded random suffixes S, `P; clear; S` and `S` on a newly constructed instance are both validated by TLC against the "
                       "reference and compared with each other result by result (handles compared through the entries they read); all seven "
@@ -1116,6 +1124,12 @@ def plan_c10(ctx):
     futs += random_jobs(ctx, allord, 1 if q else 4, {"keys": 12, "steps": 1500 if q else 8000, "seglen": 120})
     futs += random_jobs(ctx, ["keytree", "keylist"], 1 if q else 4, {"keys": 10, "tspan": 6, "steps": 2000 if q else 10000, "seglen": 60})
     futs += seg_random_jobs(ctx, 1 if q else 3, 800 if q else 5000)
+    futs += seg_dense_jobs(ctx)
+    # sizes far outside the exhaustive universes: threshold sweeps, clear sweeps, deep bulk runs; every valid small tree
+    futs += ord_scale_jobs(ctx, allord, deep=300000)
+    futs += key_scale_jobs(ctx, ["keytree", "keylist"], "ABCD", deep=20000 if q else 60000)
+    futs += ord_ind_jobs(ctx, ["maptree-i32", "settree-i32"], 7 if q else 10, 1 if q else 4, limit=60 if q else 3000)
+    futs += key_ind_jobs(ctx, 4 if q else 5, 1 if q else 4, limit=60 if q else 2000, export=1)
     futs += layout_jobs(ctx, not q)
     futs += [ctx.submit(f"sizes-{c}", c, "sizes", {"max": (10000 if q else 1000000) if c == "keytree" else 10000}) for c in ("keytree", "keylist")]
     ctx.collect(futs)
@@ -1164,7 +1178,11 @@ def replay(path):
     ctx = Ctx("replay-" + pid, "quick", 1)
     ctx.pid = pid
     flags = ("fault", "twin")
-    r = ctx.trace_job("replay", coll, "replay", {"file": os.path.abspath(path), "keys": hdr["params"].get("keys", 8)}, flags=flags)
+    # the observation sweeps of the list variants must cover every key the recorded calls mention
+    import re as _re
+    mentioned = [int(x) for ln in lines[1:] for x in _re.findall(r'"(?:k|p|hi|lo)":(-?\d+)', ln.split('"snap"')[0])]
+    keys = max([int(hdr["params"].get("keys", 8))] + [min(m, 5000) for m in mentioned])
+    r = ctx.trace_job("replay", coll, "replay", {"file": os.path.abspath(path), "keys": keys}, flags=flags)
     for x in r["mine"]:
         log(f"VIOLATION property={pid} replay={path}")
         log(f"   {coll} {x['tag']} at event {x['l']}: {json.dumps(x['info'])[:400]}")
